@@ -3,15 +3,16 @@
 # Applies a patch to a scratch worktree of /repo (outside /repo and /verif), confirms it builds and
 # passes the repository's own tests, runs the given checks against it and removes the worktree.
 set -u
+HERE="$(cd "$(dirname "$0")/.." && pwd)"
 PATCH="$(readlink -f "$1")"; TIER="$2"; shift 2
 export GOFLAGS=-mod=mod GOPROXY=off GOSUMDB=off GOTOOLCHAIN=local
 W="$(mktemp -d /tmp/mutant-XXXXXX)"; rmdir "$W"
 git -C /repo worktree add -q --detach "$W" HEAD || exit 2
-trap 'git -C /repo worktree remove --force "$W" >/dev/null 2>&1; git -C /repo worktree prune; rm -rf /verif/replays' EXIT
+trap 'git -C /repo worktree remove --force "$W" >/dev/null 2>&1; git -C /repo worktree prune; rm -rf "$HERE/replays"' EXIT
 if ! git -C "$W" apply "$PATCH"; then echo "MUTANT $(basename "$PATCH"): patch does not apply"; exit 2; fi
 if ! (cd "$W" && go build ./... && go test -vet=off -count=1 ./... >/dev/null 2>&1); then echo "MUTANT $(basename "$PATCH"): does not build or fails the repository tests"; exit 2; fi
 for id in "$@"; do
-	out="$(VERIF_REPO="$W" timeout 900 /verif/run.sh check "$id" "$TIER" 2>&1)"; rc=$?
+	out="$(VERIF_REPO="$W" timeout 900 $HERE/run.sh check "$id" "$TIER" 2>&1)"; rc=$?
 	n=$(printf '%s\n' "$out" | grep -c '^VIOLATION')
 	first=$(printf '%s\n' "$out" | grep -A1 '^VIOLATION' | sed -n 2p | cut -c1-220)
 	echo "MUTANT $(basename "$PATCH") check=$id tier=$TIER exit=$rc violations=$n :: $first"
